@@ -64,6 +64,19 @@ def check_C14(chk):
         t.model_body = [("c", 1), ("c", 1)]
         root = L.Suite(0, children=[L.Test(1, body=[("c", 1)]), t, L.Test(3, body=[("c", 1)])])
         cases.append((root, "text", mode)); envs.append({"CGREEN_PER_TEST_TIMEOUT": "2"} if first == "env" else {})
+    # the overrunning test is registered before a sub-suite of its suite (the sub-suite's tests then run before it,
+    # or - after a change of the order - between it and the end of its suite), at the root and one level down
+    for k, (arm, rep) in enumerate((("env", "text"), ("die_in", "cute"), ("die_in", "text"), ("env", "xml"))):
+        body = [("raw", "spin"), ("c", 1)]
+        if arm == "die_in":
+            body.insert(0, ("raw", "die_in 1"))
+        t = L.Test(1, body=body)
+        t.model_kill = (2, "exit", status)
+        t.model_body = [("c", 1)]
+        inner = L.Suite(2, children=[L.Test(2, body=[("c", 1)]), L.Test(3, body=[("c", 1)])])
+        owner = L.Suite(1 if k % 2 else 0, children=[t, inner, L.Test(4, body=[("c", 1)])])
+        root = L.Suite(0, children=[owner, L.Test(5, body=[("c", 1)])]) if k % 2 else owner
+        cases.append((root, rep, "forked")); envs.append({"CGREEN_PER_TEST_TIMEOUT": "1"} if arm == "env" else {})
     # in time: the limit is set and nobody overruns
     for mode in ("forked", "inproc", ("single", 2)):
         root = L.Suite(0, children=[L.Test(1, body=[("c", 1)]), L.Test(2, body=[("c", 1), ("raw", "sleep 50"), ("c", 1)]), L.Test(3, body=[("c", 1)])])
